@@ -17,17 +17,30 @@ def close(a, b):
     return core.ulp_close(float(a), float(b), 8, TOL)
 
 
+_STARTS = {}
+
+
 def ref_matching(query, series, penalty, nd):
-    """matching[e] = min_b DTW(query, series[b..e], penalty) / len(query), by brute force over b."""
+    """matching[e] = min_b DTW(query, series[b..e], penalty) / len(query), by brute force over b.
+    Also records, per end e, every start b that attains the minimum (ref_starts)."""
     out = []
+    starts = []
     for e in range(len(series)):
-        best = inf
-        for b in range(e + 1):
-            d = oracles.dtw_ref(query, series[b:e + 1], penalty=penalty, ndim=nd > 1)
-            if d < best:
-                best = d
+        ds = [oracles.dtw_ref(query, series[b:e + 1], penalty=penalty, ndim=nd > 1) for b in range(e + 1)]
+        best = min(ds)
         out.append(best / len(query))
+        starts.append([b for b, d in enumerate(ds) if d == best or core.ulp_close(d, best, 8, TOL)])
+    if len(_STARTS) > 64:
+        _STARTS.clear()
+    _STARTS[(repr(query), repr(series), penalty, nd)] = starts
     return out
+
+
+def ref_starts(query, series, penalty, nd):
+    key = (repr(query), repr(series), penalty, nd)
+    if key not in _STARTS:
+        ref_matching(query, series, penalty, nd)
+    return _STARTS[key]
 
 
 class Eng:
@@ -111,10 +124,33 @@ def check_kbest(acc, case, eng, L, args, query, series, penalty, nd, ref):
                 lo, hi = max(a[1][0], b[1][0]), min(a[1][1], b[1][1])
                 if hi - lo + 1 > 1:
                     why = 'segments %r and %r share more than one sample with overlap=0' % (a[1], b[1])
+    if why is None and not args.get('overlap'):
+        # "k-best": an end position that no stated rule can exclude must be among the yielded matches.  An end e is
+        # beyond doubt when (a) EVERY optimal start b gives a segment length inside the limits, (b) the widest of these
+        # segments is disjoint from every yielded segment, and (c) the iteration ran dry (k=None or fewer than k matches)
+        # or the value at e is strictly below the last yielded value.  Ends with any doubt (ties between starts of
+        # different admissibility, touching segments, equal values) are not judged.
+        starts = ref_starts(query, series, penalty, nd)
+        mn, mx, k = args.get('minlength'), args.get('maxlength'), args.get('k')
+        dry = k is None or len(L) < k
+        lastv = vals[-1] if vals else inf
+        for e in range(len(series)):
+            if e in ends or ref[e] == inf:
+                continue
+            bs = starts[e]
+            if any((mn is not None and e - b + 1 < mn) or (mx is not None and e - b + 1 > mx) for b in bs):
+                continue
+            lo = min(bs)
+            if any(not (e < seg[0] or lo > seg[1]) for _, seg, _, _ in L):
+                continue
+            if dry or ref[e] < lastv - 1e-9:
+                why = 'end %d (value %r, segment lengths %r within the limits, disjoint from every yielded segment) is missing from the %s' % (
+                    e, ref[e], sorted(set(e - b + 1 for b in bs)), 'complete iteration' if dry else 'k best')
+                break
     acc.valid()
     if why:
         acc.violation('kbest', 'kbest_matches', eng, dict(tags_of(case), what='kbest', overlap=bool(args.get('overlap'))), dict(case, args=args),
-                      'distinct ends, sorted values, length limits, no overlap', {'matches': [[x[0], x[1], x[2]] for x in L], 'why': why})
+                      'distinct ends, sorted values, length limits, no overlap, no admissible disjoint end left out', {'matches': [[x[0], x[1], x[2]] for x in L], 'why': why})
     for info in L:
         check_match(acc, dict(case, args=args), eng, info, query, series, penalty, nd, ref, 'kbest_match')
 
